@@ -81,10 +81,20 @@ MENUS = {
                         sequences=[['late_result'],
                                    ['stop:ERROR', 'late_result'],
                                    ['stop:SUCCESS', 'late_result']]),
-    'stop_resume': dict(menu=['stop:SUCCESS', 'resume', 'pause'],
-                        max_cmds=2, sequences=[['stop:SUCCESS', 'resume'],
-                                               ['stop:SUCCESS', 'pause'],
-                                               ['stop:ERROR', 'resume']]),
+    'stop_resume': dict(menu=['stop:SUCCESS', 'stop:ERROR', 'stop:CANCELLED',
+                              'resume_any', 'pause_any'],
+                        max_cmds=2,
+                        sequences=[['stop:SUCCESS', 'resume_any'],
+                                   ['stop:ERROR', 'resume_any'],
+                                   ['stop:CANCELLED', 'resume_any'],
+                                   ['stop:SUCCESS', 'pause_any'],
+                                   ['stop:ERROR', 'pause_any']]),
+    'finished_cmds': dict(menu=['resume_any', 'pause_any',
+                                'stop_any:SUCCESS', 'stop_any:ERROR',
+                                'stop_any:CANCELLED'], max_cmds=1),
+    'late_then_resume': dict(
+        menu=['stop:ERROR', 'late_result', 'resume_any'], max_cmds=3,
+        sequences=[['stop:ERROR', 'late_result', 'resume_any']]),
 }
 ASYNC_MENUS = {
     'async_updates': dict(menu=['async_pause', 'async_resume', 'async_err',
